@@ -200,6 +200,9 @@ func (x *tr) nilParamOf(name string) string {
 // ---- statements ----
 
 func (x *tr) ioStmt(s ast.Stmt, tail []ast.Stmt, rest [][]ast.Stmt) (string, bool) {
+	if x.localConst(s) { // every target: `const secondsPerDay = 86400` inside a function body
+		return x.exec(tail, rest), true
+	}
 	if !x.t.IO {
 		return "", false
 	}
@@ -245,6 +248,41 @@ func (x *tr) ioStmt(s ast.Stmt, tail []ast.Stmt, rest [][]ast.Stmt) (string, boo
 		return x.ioSelect(s, tail, rest), true
 	}
 	return "", false
+}
+
+// localConst: a constant declaration inside a function body whose values are integer constant
+// expressions: the names are usable like package-level constants (a name that is already a package
+// constant of another value is untranslatable)
+func (x *tr) localConst(s ast.Stmt) bool {
+	ds, ok := s.(*ast.DeclStmt)
+	if !ok {
+		return false
+	}
+	gd, ok := ds.Decl.(*ast.GenDecl)
+	if !ok || gd.Tok != token.CONST {
+		return false
+	}
+	for _, sp := range gd.Specs {
+		vs := sp.(*ast.ValueSpec)
+		if len(vs.Names) != len(vs.Values) {
+			fail("declaration %s", src(x.p.fset, s))
+		}
+		for i, nm := range vs.Names {
+			v, ok := x.p.constEval(vs.Values[i], 0)
+			if !ok {
+				fail("local constant %s is not an integer constant expression", nm.Name)
+			}
+			typ := ""
+			if vs.Type != nil {
+				typ = src(x.p.fset, vs.Type)
+			}
+			if old, had := x.p.consts[nm.Name]; had && (old.val != v || old.typ != typ) {
+				fail("local constant %s differs from a package constant of that name", nm.Name)
+			}
+			x.p.consts[nm.Name] = constVal{v, typ}
+		}
+	}
+	return true
 }
 
 // isRecoverHandler: func() { if r := recover(); r != nil { calls for effect } }
@@ -533,6 +571,8 @@ func (x *tr) ioStore(a act, rhs ast.Expr) {
 				fail("struct literal sets field %s, not listed in StoreFields", f)
 			}
 		}
+	} else if len(x.t.StoreFields) > 0 {
+		fail("StoreFields: %s is not a struct literal", src(x.p.fset, rhs))
 	} else if len(a.Keep) > 0 {
 		if id, ok := unparen(rhs).(*ast.Ident); ok && id.Name == "nil" {
 			args = append(args, "LZ 0%Z")
@@ -653,6 +693,12 @@ func (x *tr) ioErrVal(e ast.Expr) (string, bool) {
 		if fn == "make" {
 			return "1%Z", true
 		}
+		if h, key, ok := x.lookupRet(e); ok && h.Typ == "opaque" && h.Var != "" { // `return f(...)`, f's error known as <Var>_nil
+			if _, isAct := x.lookupAct(e); isAct {
+				x.actCall(e)
+			}
+			return "(if " + x.param(x.retBase(h, key)+"_nil", "bool").coq + " then 0%Z else 1%Z)", true
+		}
 		if h, key, ok := x.lookupRet(e); ok && h.Typ == "error" {
 			if _, isAct := x.lookupAct(e); isAct {
 				x.actCall(e)
@@ -670,6 +716,13 @@ func (x *tr) ioCall(fn string, e *ast.CallExpr) (val, bool) {
 	if fn == "len" && len(e.Args) == 1 {
 		if id, ok := e.Args[0].(*ast.Ident); ok && x.isLenSlice(id.Name) && x.vars[id.Name] == "int" {
 			return val{coq: cname(id.Name), typ: "int"}, true
+		}
+	}
+	if fn == "len" && len(e.Args) == 1 {
+		if id, ok := e.Args[0].(*ast.Ident); ok && x.vars[id.Name] == "ptr:?" {
+			if _, aliased := x.alias[id.Name]; aliased { // an opaque result of a Rets call: its length is <name>_len
+				return x.param(x.resolve(id.Name)+"_len", "int"), true
+			}
 		}
 	}
 	if h, ok := x.t.AbsCalls[fn]; ok && len(e.Args) == 1 {
@@ -718,4 +771,36 @@ func ioFieldsModule() string {
 	}
 	b.WriteString("End LeafFields.\n")
 	return b.String()
+}
+
+// ioCmp: comparisons the fragment has no values for, as boolean parameters that do not depend on the
+// locals' names:
+//   - `e == pkg.Sentinel` / `e != pkg.Sentinel` with e an opaque result of a Rets call (err == io.EOF):
+//     the parameter <result name>_is_<Sentinel>;
+//   - a flag test `x&pkg.Flag == pkg.Flag` / `!=` (ev.Op&fsnotify.Rename == fsnotify.Rename): the
+//     parameter has_<Flag>.
+func (x *tr) ioCmp(e *ast.BinaryExpr) (val, bool) {
+	if !x.t.IO || (e.Op != token.EQL && e.Op != token.NEQ) {
+		return val{}, false
+	}
+	neg := func(v val) val {
+		if e.Op == token.NEQ {
+			return val{coq: "(negb " + v.coq + ")", typ: "bool"}
+		}
+		return v
+	}
+	a, b := unparen(e.X), unparen(e.Y)
+	if sel, ok := b.(*ast.SelectorExpr); ok {
+		if _, isPkg := sel.X.(*ast.Ident); isPkg {
+			if id, ok := a.(*ast.Ident); ok && x.vars[id.Name] == "ptr:?" {
+				if _, aliased := x.alias[id.Name]; aliased {
+					return neg(x.param(x.resolve(id.Name)+"_is_"+sel.Sel.Name, "bool")), true
+				}
+			}
+			if be, ok := a.(*ast.BinaryExpr); ok && be.Op == token.AND && src(x.p.fset, be.Y) == src(x.p.fset, sel) {
+				return neg(x.param("has_"+sel.Sel.Name, "bool")), true
+			}
+		}
+	}
+	return val{}, false
 }
